@@ -1953,6 +1953,23 @@ def rand_ident(rng):
     return first + "".join(rng.choice(NAME_ALPHA) for _ in range(rng.randint(0, 3)))
 
 
+FILTER_WORDS = ["std", "yorel", "void", "bool", "char", "int", "float", "double", "short", "long", "signed", "unsigned", "class", "struct",
+                "enum", "const", "volatile", "wchar_t", "char8_t", "char16_t", "char32_t"]
+
+
+def boundary_idents(rng, k=3):
+    """identifiers next to what the generator filters out: proper prefixes and one-character extensions of `std`,
+    `yorel` and the keywords (never the words themselves) - a class may be called `st`, `yo`, `in` or `intx`"""
+    out = []
+    for _ in range(k):
+        w = rng.choice(FILTER_WORDS[:2]) if rng.random() < 0.5 else rng.choice(FILTER_WORDS)
+        if rng.random() < 0.6 and len(w) > 1:
+            out.append(w[:rng.randint(1, len(w) - 1)])
+        else:
+            out.append(w + rng.choice("x_9"))
+    return [x for x in out if x not in FILTER_WORDS and x != "__int128"]
+
+
 def rand_qualified(rng, pool):
     depth = rng.choice([0, 0, 1, 1, 2, 3])
     return "::".join(rng.choice(pool) for _ in range(depth + 1))
@@ -1991,6 +2008,8 @@ def check_C19(ck):
             # identifiers that are string prefixes of one another
             if rng.random() < 0.5:
                 pool.append(pool[0] + rng.choice(NAME_ALPHA))
+            if rng.random() < 0.25:
+                pool += boundary_idents(rng)
             if rng.random() < 0.5:
                 names = [rand_qualified(rng, pool) for _ in range(rng.randint(1, 7))]
                 lines.append("fwd-names " + " ".join(names))
